@@ -210,9 +210,11 @@ func structEdits(nb int) []StructEdit {
 		add(fmt.Sprintf("footer.reserved-flags-byte=%#x", v), true, func(m *xzModel) bool { m.FtrFlags[0] = v; return true })
 		add(fmt.Sprintf("header+footer.reserved-flags-byte=%#x", v), true, func(m *xzModel) bool { m.HdrFlags[0], m.FtrFlags[0] = v, v; return true })
 	}
-	for _, v := range []byte{0x10, 0x80} {
+	for _, v := range []byte{0x10, 0x20, 0x40, 0x80} {
 		v := v
 		add(fmt.Sprintf("header+footer.reserved-check-high-bits=%#x", v), true, func(m *xzModel) bool { m.HdrFlags[1] |= v; m.FtrFlags[1] |= v; return true })
+		add(fmt.Sprintf("header.reserved-check-high-bits=%#x(footer unchanged)", v), true, func(m *xzModel) bool { m.HdrFlags[1] |= v; return true })
+		add(fmt.Sprintf("footer.reserved-check-high-bits=%#x(header unchanged)", v), true, func(m *xzModel) bool { m.FtrFlags[1] |= v; return true })
 	}
 	for bi := 0; bi < nb; bi++ {
 		bi := bi
